@@ -3,10 +3,16 @@ from checks.generic import standard
 def run(ctx):
     return standard(ctx,
         props=[("Props.C10", ["c10_strong", "c10_strong_complete", "c10_pipeline", "c10_weak_is_client_error",
-                              "c10_decoder_total", "c10_old_rsa_refuted"])],
+                              "c10_decoder_total", "c10_old_rsa_refuted",
+                              "c10_pipeline_parse_explicit", "c10_single_parse_paths", "c10_disagreeing_parsers_refuted",
+                              "c10_weak_is_client_error_every_path",
+                              "c10_claim_access_total", "c10_claim_access_sound", "c10_unguarded_index_refuted", "c10_header_assertion"])],
         harness=("TestVerif_C10", ["kmd/common.go", "kmd/creds.go", "kmd/consts.go", "kmd/c10.go", "kmd/c11.go", "kmd/tokens.go", "kmd/c04.go", "kmd/c10_tokens.go"]),
         cases=("CasesC10.v", [("c10_pred_mismatches", "ValidatePublicKeyStrength = model validate on every RSA size 1..4200, curves, Ed25519, others"),
-                              ("c10_pipeline_mismatches", "status class of the six issuing paths = model pipeline on the key corpus")], None),
+                              ("c10_pipeline_mismatches", "status class of the six issuing paths = model pipeline on the key corpus"),
+                              ("c10_file_mismatches", "SSH key files of the authorized_keys grammar (pairs of keys): status class = model pipeline2 on the key the real validator approved", "CasesC10F.idx"),
+                              ("c10_agree_mismatches", "hypothesis of c10_pipeline_parse_explicit: the key inside every returned SSH certificate is the key the real validator approved", "CasesC10F.idx"),
+                              ("c10_claim_mismatches", "getAuthInfoFromAuthJWT on well-signed tokens with dropped / type-confused claims: accepted (user, level, expiry, issued-at) or refused = model get_auth_info on the same payload", "CasesC10J.idx")], "CasesC10.idx"),
         trusted=["key parsers (x509.ParsePKIXPublicKey, ssh.ParseAuthorizedKey, pem) run in front of the model; the model starts at the parsed key description (algorithm, modulus bits, exponent, curve)",
                  "fake STS endpoint for the cloud-role path (harness verifFakeSTS)"],
         assumptions=["absence of panics in library parsers is tested (mutation fuzzing through every path), not proved"],
